@@ -225,7 +225,7 @@ def probe(cls, data):
 
 def _structure(V, spec_id):
     spec = dcspec.SPECS[spec_id]
-    mode = V.pick('mode', MODES if spec_id in ('mode', 'io', 'mix') else [None, 'w'])
+    mode = V.pick('mode', MODES if spec_id in ('mode', 'io', 'mix', 'modeout', 'modereq') else [None, 'w'])
     addition = V.pick('addition', ADDITIONS)
     o = {}
     if mode:
